@@ -665,7 +665,7 @@ func c02Container(c *Ctx, ct *Cont) {
 	bad, undec := "", ""
 	badEmit := ""
 	sample := ""
-	for n := int64(0); n <= 3 && bad == "" && undec == ""; n++ {
+	for n := int64(0); n <= int64(c.depth(3, 6)) && bad == "" && undec == ""; n++ {
 		got, why := c.emitted(fd, paths, n)
 		if why != "" {
 			undec = why
@@ -707,9 +707,9 @@ func c02Container(c *Ctx, ct *Cont) {
 			shape.Fail("%s", bad)
 		}
 	default:
-		shape.Ok("emitted text folded for 0..3 elements, e.g. 2 elements: %s", sample)
+		shape.Ok("emitted text folded for 0.."+itoa(c.depth(3, 6))+" elements, e.g. 2 elements: %s", sample)
 		emit.Ok("every byte comes from the container's own punctuation, the approved JSON string encoder applied to the range key, or the child's serialiser of the range value — each element exactly once, in range order")
-		sep.Ok("',' is written exactly between consecutive elements (0..3 elements folded)")
+		sep.Ok("',' is written exactly between consecutive elements (0.." + itoa(c.depth(3, 6)) + " elements folded)")
 	}
 }
 
